@@ -108,11 +108,6 @@ def run(ctx: Ctx) -> None:
 
     # (3b) in-situ
     situ = pmap(kc.insitu_run, insitu_tasks(ctx))
-    for s in situ:
-        if s["stats"]["n_exit"] == 0:
-            raise MachineryError(f"no kry_exit hook event in an in-situ run: {s['spec']} (exception {s['exc']})")
-        if s["exc"] not in (None, "RecursionError"):
-            raise MachineryError(f"in-situ run failed for an unrelated reason ({s['exc']}): {s['spec']}")
     forced = [s for s in situ if s["spec"].get("cfg", {}).get("max_krylov_dim", 100) <= 3]
     if not any(s["exc"] == "RecursionError" for s in forced):
         ctx.notes.append("in-situ: no run with a too small max_krylov_dim raised (non-convergence path not seen in situ)")
@@ -121,6 +116,14 @@ def run(ctx: Ctx) -> None:
     # verdicts
     j1 = kc.judge(ctx, "kexp", real_results, "paths")
     j2 = kc.judge(ctx, "kexp", rand_results, "random")
+    for s in situ:
+        broken = s["exc"] not in (None, "RecursionError") or s["stats"]["n_exit"] == 0
+        if broken and ctx.n_violations + ctx.n_known > 0:
+            # the kernel already violates the property on direct calls: an in-situ run that dies is a consequence
+            ctx.notes.append(f"in-situ run {s['spec']['backend']} {s['spec'].get('cfg')} ended with {s['exc']} after {s['stats']['n_exit']} Krylov exits")
+        elif broken:
+            raise MachineryError(f"in-situ run unusable (exception {s['exc']}, {s['stats']['n_exit']} kry_exit events): {s['spec']}")
+    situ = [s for s in situ if s["exc"] in (None, "RecursionError") and s["stats"]["n_exit"] > 0]
     j3 = kc.judge(ctx, "kexp", situ, "insitu")
     ctx.coverage["trace_verdicts"] = {"paths": j1, "random": j2, "insitu": j3}
 
@@ -153,7 +156,8 @@ def run(ctx: Ctx) -> None:
     ex = next((r for r in rand_results if r["outcome"] == "raised"), None)
     if ex:
         ctx.sample({"spec": ex["spec"], "record": ex["rec"], "outcome": ex["outcome"], "exception": ex["exc"]})
-    ctx.sample({"in_situ": situ[0]["spec"], "stats": situ[0]["stats"], "events_head": situ[0]["events"][:3]})
+    if situ:
+        ctx.sample({"in_situ": situ[0]["spec"], "stats": situ[0]["stats"], "events_head": situ[0]["events"][:3]})
     ctx.coverage["rule"] = (
         "TLC: all control paths for max_krylov_dim <= 6 (exhaustive); real code: one case per instance "
         "(operator class, dimension, spectrum, seed, tolerance, dt scale, max_krylov_dim, entry point); non-trivial = dimension >= 2, "
